@@ -417,6 +417,19 @@ class ModelEval(Evaluator):
 
     UDUNDER = {ast.USub: "__neg__", ast.UAdd: "__pos__", ast.Invert: "__invert__"}
 
+    def unary_value(self, node, op, v):
+        if isinstance(op, ast.Not):
+            return not self.truth(v, node)
+        if isinstance(v, PyObj):
+            m = self.tree.method(v._cls, self.UDUNDER[type(op)])
+            if m is None:
+                raise Raised("TypeError", node, "bad operand type for unary operator")
+            return self.invoke(m, [v], {}, node)
+        try:
+            return {ast.USub: lambda x: -x, ast.UAdd: lambda x: +x, ast.Invert: lambda x: ~x}[type(op)](v)
+        except TypeError as e:
+            raise Unsupported("cannot evaluate unary operator: %s" % e)
+
     def ev_UnaryOp(self, node):
         if type(node.op) in self.UDUNDER:
             v = self.ev(node.operand)
@@ -588,6 +601,32 @@ class ModelEval(Evaluator):
                     for x in items:
                         acc = self.call(node, args[0], [acc, x], {})
                     return acc
+                if h is None and func.data[0] in ("operator.neg", "operator.pos", "operator.invert", "operator.not_") and len(args) == 1:
+                    opn = {"operator.neg": ast.USub, "operator.pos": ast.UAdd, "operator.invert": ast.Invert, "operator.not_": ast.Not}[func.data[0]]
+                    return self.unary_value(node, opn(), args[0])
+                if h is None and func.data[0] == "operator.itemgetter" and args:
+                    keys = list(args)
+                    return Marker("pyfunc", (lambda o: self.subscript(node, o, keys[0])) if len(keys) == 1 else (lambda o: tuple(self.subscript(node, o, k_) for k_ in keys)))
+                if h is None and func.data[0] == "operator.attrgetter" and len(args) == 1 and isinstance(args[0], str):
+                    def attrgetter(o, path=args[0]):
+                        for part in path.split("."):
+                            o = self.call_builtin(node, "getattr", [o, part], {})
+                        return o
+                    return Marker("pyfunc", attrgetter)
+                if h is None and func.data[0] == "operator.methodcaller" and args and isinstance(args[0], str):
+                    mname, margs, mkw = args[0], list(args[1:]), dict(kwargs)
+                    return Marker("pyfunc", lambda o: self.call(node, self.call_builtin(node, "getattr", [o, mname], {}), list(margs), dict(mkw)))
+                if h is None and func.data[0] == "operator.getitem" and len(args) == 2:
+                    return self.subscript(node, args[0], args[1])
+                if h is None and func.data[0] == "functools.partial" and args:
+                    pf, pa, pk = args[0], list(args[1:]), dict(kwargs)
+                    return Marker("pyfunc", lambda *b, **kk: self.call(node, pf, pa + list(b), dict(pk, **kk)))
+                if h is None and func.data[0] == "collections.namedtuple" and len(args) >= 2:
+                    import collections as _collections
+                    try:
+                        return Marker("type", _collections.namedtuple(args[0], args[1], **{k_: v_ for k_, v_ in kwargs.items() if k_ in ("defaults", "rename")}))
+                    except (TypeError, ValueError) as e:
+                        raise Raised(type(e).__name__, node, str(e))
                 if h is None and func.data[0] == "weakref.ref" and len(args) >= 1:
                     return WeakRef(args[0])
                 if h is None and func.data[0] == "contextlib.suppress":
@@ -1025,9 +1064,10 @@ class ModelEval(Evaluator):
                 raise Raised("AssertionError", st)
             return
         if isinstance(st, ast.FunctionDef):
-            # a nested function: a closure over THIS environment (by reference, as in python); no decorators, no generators
-            if st.decorator_list or _is_generator(st):
-                raise Unsupported("nested definition with decorators / yield")
+            # a nested function: a closure over THIS environment (by reference, as in python); no decorators.  A nested generator
+            # function is run eagerly when called (like module-level generators): the values it yields form the list it returns.
+            if st.decorator_list:
+                raise Unsupported("nested definition with decorators")
             outer, fnode = self, st
 
             def closure(*args, **kwargs):
@@ -1059,6 +1099,10 @@ class ModelEval(Evaluator):
                 if missing:
                     raise Raised("TypeError", fnode, "%s() missing argument %s" % (fnode.name, missing[0]))
                 sub = ModelEval(outer.tree, outer.fi, env, outer.hooks, outer.depth + 1, outer.shared)
+                if _is_generator(fnode):
+                    sub.yielded = []
+                    sub.run_body(fnode.body)
+                    return sub.yielded
                 return sub.run_body(fnode.body)
             closure.__name__ = st.name
             self.env[st.name] = closure
